@@ -229,6 +229,7 @@ let () =
                | "refuse" -> run_monitor (refuse_step (param = "b1")) [] tr
                | "put" -> run_monitor put_step put_init tr
                | "select" -> run_monitor sel_step (O, Before) tr
+               | "skip" -> run_monitor skip_step SStart tr
                | "consent" -> run_monitor (consent_step (match param with "n1" -> Some true | "n2" -> Some false | _ -> None)) Unknown tr
                | "decision" ->
                    (match String.split_on_char '|' param with
